@@ -304,7 +304,7 @@ package varmq
 // start: from Running / Paused / Stopped it refuses and changes nothing; from Initiated it creates exactly one dispatcher, the reaper (iff
 // idle expiry), the context listener (iff a context), the first idle pool node, stores Running and raises the initial signal.
 //@ func worker.start
-//@   props C14 C02 C03 C18
+//@   props C14 C02 C03 C18 C09
 //@   requires RI_worker(w) && w.Configs.idleWorkerExpiryDuration >= 0 && len(w.tickers) < MaxInt
 //@   modifies w.status, $alloc, $spawned, w.$disp, w.$reapers, w.$listeners, w.$nodes, w.tickers, w.tickers[**], key G:$tickersLive, $chan(w.eventLoopSignal),
 //@            linkedlist.Node.next, linkedlist.Node.prev, w.pool.List.len, w.pool.List.$at, w.pool.List.$pos, w.pool.List.$in
